@@ -214,7 +214,7 @@ func (w *Whisper) FetchFromArchive(arhiveID int, from, until, now Timestamp) (*T
 	}
 	r := &w.ArchiveInfoList()[arhiveID]
 
-	oldest := now.Add(-r.MaxRetention())
+	oldest := oldestTime(now, r.MaxRetention())
 	// range is in the future
 	if from > now {
 		return nil, nil
@@ -300,7 +300,7 @@ func (w *Whisper) UpdatePointForArchive(archiveID int, t Timestamp, v Value, now
 		now = TimestampFromStdTime(Now())
 	}
 
-	if t <= now.Add(-w.MaxRetention()) || now < t {
+	if t <= oldestTime(now, w.MaxRetention()) || now < t {
 		return fmt.Errorf("Timestamp not covered by any archives in this database")
 	}
 
@@ -391,11 +391,21 @@ func (w *Whisper) archiveUpdateMany(points []Point, archiveID int, now Timestamp
 	return nil
 }
 
+// oldestTime returns now minus retention, or zero when the retention reaches
+// back beyond the epoch. Timestamp is unsigned, so now.Add(-retention) would
+// wrap around to a time in the future in that case.
+func oldestTime(now Timestamp, retention Duration) Timestamp {
+	if int64(now) < int64(retention) {
+		return 0
+	}
+	return now.Add(-retention)
+}
+
 // extractPoints extract points for the current archive.
 // It returns points whose time is greater than or equal to now.Add(-maxRetention).
 // Note: points must be sorted in ascending time order.
 func extractPoints(points []Point, now Timestamp, maxRetention Duration) (currentPoints Points, remainingPoints Points) {
-	maxAge := now.Add(-maxRetention)
+	maxAge := oldestTime(now, maxRetention)
 	// log.Printf("extractPoints now=%s, maxRetention=%s, maxAge=%s", now, maxRetention, maxAge)
 	for i := len(points) - 1; i >= 0; i-- {
 		p := points[i]
